@@ -48,13 +48,39 @@
    QpSolver::solve of the trainer's own call), the block-matrix index map and the eps-SVR coefficient;
    the extracted certify, run in exact rational arithmetic on the real trainer's returned variables
    with an independently computed kernel matrix, must accept (eps + printed rounding allowance).
+   PROVED (extension "degenerate geometry", end of this file; C07Degenerate.v / C07DegenerateProofs.v):
+   * FEASIBILITY OF THE SMO STEP DOES NOT DEPEND ON THE CURVATURE.  C07Degenerate.smo_pair is the scalar core of
+     SvmProblem::updateSMO with the curvature d = K_ii + K_jj - 2 K_ij as an explicit argument and the treatment of d
+     as a parameter; with the as-coded clamp max(d, 1e-12) it IS the step of the solver model C08Model.smo_new
+     (C07_smo_model_step_is_smo_pair, by computation, for every arithmetic; C08's check runs that model next to the real
+     solver step by step).  For EVERY d — negative, zero, positive; d is universally quantified — and g_i >= g_j the
+     as-coded step keeps both variables inside their boxes, preserves their sum, has length >= 0 and does not overshoot
+     (C07_smo_step_feasible_for_every_curvature); at state level, for EVERY matrix K0 (neither symmetric nor positive
+     semidefinite, e.g. the float-rounded kernel cache of nearly identical points): box, bound flags, sum(alpha), all
+     other variables untouched (C07_smo_step_feasible_for_every_matrix; this is the part of C08's
+     C08_smo_step_keeps_invariants_and_objective that needs no hypothesis on K0, restated with K0 unconstrained —
+     C08 states it under Ksym because it also proves the gradient invariant and the monotone objective).
+   * REFUTED (concrete numbers, vm_compute): with the clamp replaced by the test `d == 0` (seeded change C07-7) or
+     removed, a curvature of -1e-6 throws both variables of a C-SVM pair out of their boxes
+     (C07_smo_step_zero_test_instead_of_clamp_refuted, C07_smo_step_without_clamp_refuted,
+     C07_smo_step_feasible_without_clamp_refuted); the hypothesis g_i >= g_j is needed even with the clamp, the
+     clipping only limits steps in the positive direction (C07_smo_step_needs_ordered_gradients_refuted) — the
+     working-set selection supplies it (wf_run of C08).
+   MONITORED on every run (degenerate-geometry stream of tools/c07.py, op code D): every trainer family on
+   near-duplicate pairs (distance 1e-3..1e-7, same / opposite labels or targets), exact duplicates, collinear points
+   (rank-deficient Gram matrix), tiny and huge feature scales, float AND double cache, cached / precomputed, shrinking
+   on / off, linear / polynomial / wide and narrow Gaussian kernels: whenever "accuracy reached" is reported, box EXACT
+   (also on the solver's own 2n / n variables), equality to 1e-12 relative, eps-KKT and bias interval against the
+   independently computed DOUBLE kernel matrix with the DERIVED allowance for the rounding of the cached entries
+   (float cache: sum_j 2^-24 |K_ij| |alpha_j| per gradient component; printed in the evidence), objective = recomputed,
+   agreement across configurations, and the extracted certify on the same results.
    MONITORED on every run, not proved: the Python spec monitor (box / equality / eps-KKT / bias
    interval / objective = recomputed / agreement across configurations), kept unchanged.
    NOT PROVED: that the real double-precision solver reaches an accepted state (termination), the
    size of the rounding allowance handed to certify (justified in the evidence, not proved), the
    exp of the log-encoded parameters (compared bit for bit with libm), psd of Gaussian Gram matrices. *)
 From Coq Require Import QArith List.
-From SharkV Require Import C08Model C08Defs C08Aux C07Proofs C07Setup C07SetupProofs C07Cert C07CertProofs.
+From SharkV Require Import C08Model C08Defs C08Aux C07Proofs C07Setup C07SetupProofs C07Cert C07CertProofs C07Degenerate C07DegenerateProofs.
 Open Scope Q_scope.
 
 Theorem C07_checkKKT_is_max_violation_svm : forall (s : qst),
@@ -309,3 +335,76 @@ Example C07_certify_rejects_non_optimal_point :
   certify_qp (gram 1 ex_X) ex_p 0 (fun i => if (i =? 0)%nat then 1 # 4 else if (i =? 1)%nat then 0 else - (1 # 4))
              true 0 (1 # 100) 0 0 = false.
 Proof. exact certify_rejects_example. Qed.
+
+(* ====================================================================================== *)
+(* Extension: degenerate geometry — feasibility of the SMO step for every curvature       *)
+(* ====================================================================================== *)
+
+(* the step of the solver model (C08Model.smo_new, run next to the real solver by tools/c08.py) is smo_pair with the
+   as-coded clamp std::max(denominator, 1.e-12), for every arithmetic (floats as well as Q) *)
+Theorem C07_smo_model_step_is_smo_pair : forall (A : Type) (O : ops A) (K0 : nat -> nat -> A) (s : st A) (i j : nat),
+  smo_new O K0 s i j =
+  smo_pair O (clamp_coded O) (grad s i) (grad s j)
+           (o_sub O (o_add O (diag K0 s i) (diag K0 s j)) (o_mul O (o_two O) (K K0 s i j)))
+           (alpha s i) (alpha s j) (bmax s i) (bmin s j).
+Proof. exact smo_new_is_smo_pair. Qed.
+Print Assumptions C07_smo_model_step_is_smo_pair.
+
+(* FOR EVERY curvature d (no sign condition, no positive semidefiniteness): the as-coded clipped step keeps both
+   variables in their boxes and preserves their sum; the step length is >= 0 and does not overshoot *)
+Theorem C07_smo_step_feasible_for_every_curvature :
+  forall gi gj d ai aj Li Ui Lj Uj : Q,
+  Li <= ai -> ai <= Ui -> Lj <= aj -> aj <= Uj -> gj <= gi ->
+  forall ai' aj' t, smo_pair qops (clamp_coded qops) gi gj d ai aj Ui Lj = (ai', aj', t) ->
+  (Li <= ai' /\ ai' <= Ui) /\ (Lj <= aj' /\ aj' <= Uj) /\ ai' + aj' == ai + aj /\
+  0 <= t /\ ai' == ai + t /\ aj' == aj - t /\ t * d <= gi - gj.
+Proof. exact smo_pair_feasible_every_curvature. Qed.
+Print Assumptions C07_smo_step_feasible_for_every_curvature.
+
+(* the same at state level for EVERY matrix K0: no symmetry, no positive semidefiniteness (corollary of the
+   characterisation of the step behind C08_smo_step_keeps_invariants_and_objective, with K0 unconstrained) *)
+Theorem C07_smo_step_feasible_for_every_matrix :
+  forall (n : nat) (K0 : nat -> nat -> Q) (s : qst) (i j : nat),
+  (i < n)%nat -> (j < n)%nat -> i <> j ->
+  Inv_box n s -> Inv_flags n s -> grad s j <= grad s i ->
+  let s' := svm_update qops K0 s i j in
+  Inv_box n s' /\ Inv_flags n s' /\ sumn n (alpha s') == sumn n (alpha s) /\
+  (forall a, a <> i -> a <> j -> alpha s' a = alpha s a) /\ lo s' = lo s /\ hi s' = hi s.
+Proof. exact svm_update_feasible_every_matrix. Qed.
+Print Assumptions C07_smo_step_feasible_for_every_matrix.
+
+(* seeded change C07-7 (`if(denominator == 0.0) denominator = 1.e-12` instead of the clamp): g_i = 1, g_j = 0,
+   curvature -1e-6, both variables at 0 in the boxes [0,1] and [-1,0]: the step is -1e6, both leave their boxes *)
+Theorem C07_smo_step_zero_test_instead_of_clamp_refuted :
+  exists gi gj d ai aj Li Ui Lj Uj : Q,
+  d < 0 /\ Li <= ai /\ ai <= Ui /\ Lj <= aj /\ aj <= Uj /\ gj <= gi /\
+  let '(ai', aj', _) := smo_pair qops (clamp_zero_only qops) gi gj d ai aj Ui Lj in
+  ai' < Li /\ Uj < aj'.
+Proof. exact smo_pair_zero_test_instead_of_clamp_refuted. Qed.
+Print Assumptions C07_smo_step_zero_test_instead_of_clamp_refuted.
+
+Theorem C07_smo_step_without_clamp_refuted :
+  exists gi gj d ai aj Li Ui Lj Uj : Q,
+  d < 0 /\ Li <= ai /\ ai <= Ui /\ Lj <= aj /\ aj <= Uj /\ gj <= gi /\
+  let '(ai', aj', _) := smo_pair qops (no_clamp (A := Q)) gi gj d ai aj Ui Lj in
+  ai' < Li /\ Uj < aj'.
+Proof. exact smo_pair_without_clamp_refuted. Qed.
+Print Assumptions C07_smo_step_without_clamp_refuted.
+
+(* the universal statement with the clamp replaced by the zero test is false *)
+Theorem C07_smo_step_feasible_without_clamp_refuted :
+  ~ (forall gi gj d ai aj Li Ui Lj Uj : Q,
+     Li <= ai -> ai <= Ui -> Lj <= aj -> aj <= Uj -> gj <= gi ->
+     forall ai' aj' t, smo_pair qops (clamp_zero_only qops) gi gj d ai aj Ui Lj = (ai', aj', t) ->
+     Li <= ai' /\ aj' <= Uj).
+Proof. exact smo_pair_feasible_without_clamp_refuted. Qed.
+Print Assumptions C07_smo_step_feasible_without_clamp_refuted.
+
+(* the hypothesis g_i >= g_j cannot be dropped (clamp in place, curvature 1, g_i - g_j = -5) *)
+Theorem C07_smo_step_needs_ordered_gradients_refuted :
+  exists gi gj d ai aj Li Ui Lj Uj : Q,
+  0 < d /\ Li <= ai /\ ai <= Ui /\ Lj <= aj /\ aj <= Uj /\ gi < gj /\
+  let '(ai', aj', _) := smo_pair qops (clamp_coded qops) gi gj d ai aj Ui Lj in
+  ai' < Li /\ Uj < aj'.
+Proof. exact smo_pair_needs_ordered_gradients_refuted. Qed.
+Print Assumptions C07_smo_step_needs_ordered_gradients_refuted.
